@@ -50,7 +50,7 @@ PROPS = {
         "partial": [],
     },
     "C02": {"theorems": props_theorems("C02") + C01_CORE + TIE_KMER + TIE_LETTERS, "partial": []},
-    "C03": {"theorems": props_theorems("C03") + TIE_LETTERS, "partial": []},
+    "C03": {"needs_cli": True, "theorems": props_theorems("C03") + TIE_LETTERS, "partial": []},
     "C04": {"ub_build": True, "theorems": props_theorems("C04") + C01_CORE + TIE_KMER + T("KtVerif.Props.FloatLemmas", ["f64OfNat_exact", "f64Div_nat_err", "f64Div_zero", "fmt6_quotient_correct", "fmt6_length"]), "partial": []},
     "C08": {"ub_build": True, "theorems": props_theorems("C08") + T("KtVerif.Props.E2E2", ["cntOfTable_eq", "cov_end_to_end"]) + C01_CORE + TIE_KMER + T("KtVerif.Props.FloatLemmas", ["covBinF64_eq_div", "fmt6_quotient_correct"]), "partial": []},
     "C11": {"theorems": props_theorems("C11") + T("KtVerif.Props.E2E2", ["cgrF64_in_square", "cgrF64_subsquare"]) + TIE_CGR + T("KtVerif.Props.FloatLemmas", ["roundDiv_err", "f64OfNat_exact"]), "partial": []},
